@@ -1,1 +1,691 @@
-(* C07 proofs: in progress *)
+(* Proofs for Props/C07.v: envCheck accepts exactly the environments whose bindings have equal types; equal types
+   ignore the order of object fields; two values of one interface-free Go struct type pass each other's envCheck. *)
+From Coq Require Import List String Ascii Bool Arith NArith ZArith Lia Permutation.
+From Yae Require Import Base.Sexp Model.Ty Gen.Generated Model.Unify Model.Num Model.Lexer Model.Cst Model.Check Model.Val
+  Model.Render Model.ValSpec Model.Builtins Model.Eval Model.VM Model.Api Model.Conv Model.ConvSpec
+  Proofs.TyInd Proofs.C17Proofs.
+Import ListNotations.
+
+(* ------------------------------------------------------------------------------------------------ *)
+(* reject / accept                                                                                   *)
+(* ------------------------------------------------------------------------------------------------ *)
+
+Lemma env_check_true te rho :
+  env_check te rho = true <->
+  (forall n t, In (n, t) te -> exists v, assoc n rho = Some v /\ ty_eqb t (val_type v) = true).
+Proof.
+  unfold env_check. rewrite forallb_forall. split.
+  - intros H n t Hin. specialize (H (n, t) Hin). simpl in H.
+    destruct (assoc n rho) as [v|]; [|discriminate]. exists v. split; [reflexivity|assumption].
+  - intros H [n t] Hin. simpl. destruct (H n t Hin) as [v [Ha Ht]]. rewrite Ha. exact Ht.
+Qed.
+
+Lemma reject : forall ops orc te code pool rho n t,
+  In (n, t) te ->
+  (assoc n rho = None \/ exists v, assoc n rho = Some v /\ ty_eqb t (val_type v) = false) ->
+  api_call ops orc te code pool rho = (AErr, []).
+Proof.
+  intros ops orc te code pool rho n t Hin Hbad.
+  unfold api_call.
+  destruct (env_check te rho) eqn:E; [|reflexivity].
+  exfalso. rewrite env_check_true in E. destruct (E n t Hin) as [v [Ha Ht]].
+  destruct Hbad as [Hn|[v' [Ha' Ht']]]; congruence.
+Qed.
+
+Lemma accept : forall ops orc te code pool rho,
+  (forall n t, In (n, t) te -> exists v, assoc n rho = Some v /\ ty_eqb t (val_type v) = true) ->
+  api_call ops orc te code pool rho =
+    (let '(t, o) := vm_run ops orc rho pool None 5000 code in
+     (guarded "facade.go:makeCallable.func defers e.backStrace" (match o with OVal v => Some v | _ => None end), t)).
+Proof.
+  intros ops orc te code pool rho H.
+  unfold api_call. apply env_check_true in H. rewrite H. reflexivity.
+Qed.
+
+(* ------------------------------------------------------------------------------------------------ *)
+(* field_order                                                                                       *)
+(* ------------------------------------------------------------------------------------------------ *)
+
+Lemma field_order : forall fs fs',
+  Permutation fs fs' -> wf_ty (TObj fs) = true -> ty_eqb (TObj fs) (TObj fs') = true.
+Proof.
+  intros fs fs' Hp Hw.
+  apply wf_obj in Hw. destruct Hw as [Hnd Hwf].
+  apply ty_eqb_obj_spec. split.
+  - apply Permutation_length; assumption.
+  - intros n t Hin. exists t. split.
+    + apply In_assoc.
+      * eapply Permutation_NoDup; [|exact Hnd]. apply Permutation_map. exact Hp.
+      * eapply Permutation_in; eauto.
+    + apply C17Proofs.eq_refl. eapply Hwf; eauto.
+Qed.
+
+
+(* ------------------------------------------------------------------------------------------------ *)
+(* same_go_type                                                                                      *)
+(* ------------------------------------------------------------------------------------------------ *)
+
+(* The static type of a Go type, without fuel and without the nesting-level limit.  [type_of] agrees with it whenever
+   it succeeds; [val_of] of a shape-stable value of an interface-free type has a type equal to it. *)
+Fixpoint sty (t : gty) : option ty :=
+  match t with
+  | GPtr e => sty e
+  | GTime => Some TTime
+  | GBool => Some TBool
+  | GInt | GUint | GFloat => Some TNum
+  | GString => Some TStr
+  | GSlice e | GArray e => option_map TList (sty e)
+  | GMap k v => do kt <- sty k; do vt <- sty v; mk_mapty kt vt
+  | GStruct fs =>
+      do fts <- mapM (fun x => let '(gn, tag, ft) := x in
+                               let '(name, maybe) := parse_tag gn tag in
+                               do t' <- sty ft;
+                               Some (name, if maybe then TMaybe t' else t')) fs;
+      mk_obj fts
+  | GIface | GOther => None
+  end.
+
+Local Opaque parse_tag.
+
+Lemma type_of_S f t lv :
+  type_of (S f) t lv =
+    if Nat.ltb maxLevel lv then None else
+    match t with
+    | GPtr e => type_of f e lv
+    | GTime => Some TTime
+    | GBool => Some TBool
+    | GInt | GUint | GFloat => Some TNum
+    | GString => Some TStr
+    | GSlice e | GArray e => option_map TList (type_of f e (S lv))
+    | GMap k v => do kt <- type_of f k (S lv); do vt <- type_of f v (S lv); mk_mapty kt vt
+    | GStruct fs =>
+        do fts <- mapM (fun x => let '(gn, tag, ft) := x in
+                                 let '(name, maybe) := parse_tag gn tag in
+                                 do t' <- type_of f ft (S lv);
+                                 Some (name, if maybe then TMaybe t' else t')) fs;
+        mk_obj fts
+    | GIface | GOther => None
+    end.
+Proof. reflexivity. Qed.
+
+Lemma bind_some {X Y} (o : option X) (k : X -> option Y) y :
+  bind o k = Some y -> exists x, o = Some x /\ k x = Some y.
+Proof. destruct o as [x|]; simpl; intros H; [eauto|discriminate]. Qed.
+
+Lemma mapM_cons {X Y} (g : X -> option Y) a l :
+  mapM g (a :: l) = do y <- g a; do ys <- mapM g l; Some (y :: ys).
+Proof. reflexivity. Qed.
+
+Lemma mapM_imp {X Y} (g h : X -> option Y) l ys :
+  (forall x y, In x l -> g x = Some y -> h x = Some y) ->
+  mapM g l = Some ys -> mapM h l = Some ys.
+Proof.
+  revert ys. induction l as [|a l IH]; intros ys Hgh H.
+  - exact H.
+  - rewrite mapM_cons in *.
+    apply bind_some in H. destruct H as [y [Hy H]].
+    apply bind_some in H. destruct H as [ys' [Hys H]].
+    rewrite (Hgh a y (or_introl Logic.eq_refl) Hy). simpl.
+    rewrite (IH ys'); [exact H| |exact Hys].
+    intros x y' Hin. apply Hgh. right; exact Hin.
+Qed.
+
+Lemma mapM_Forall2 {X Y} (g : X -> option Y) l ys :
+  mapM g l = Some ys -> Forall2 (fun x y => g x = Some y) l ys.
+Proof.
+  revert ys. induction l as [|a l IH]; intros ys H.
+  - simpl in H. inversion H. constructor.
+  - rewrite mapM_cons in H.
+    apply bind_some in H. destruct H as [y [Hy H]].
+    apply bind_some in H. destruct H as [ys' [Hys H]].
+    inversion H; subst. constructor; auto.
+Qed.
+
+Lemma type_of_sty : forall f t lv T, type_of f t lv = Some T -> sty t = Some T.
+Proof.
+  induction f as [|f IH]; intros t lv T H; [discriminate|].
+  rewrite type_of_S in H. destruct (Nat.ltb maxLevel lv); [discriminate|].
+  destruct t; simpl; try exact H; try discriminate.
+  - eapply IH; eauto.
+  - destruct (type_of f t (S lv)) as [T'|] eqn:E; [|discriminate]. rewrite (IH _ _ _ E). exact H.
+  - destruct (type_of f t (S lv)) as [T'|] eqn:E; [|discriminate]. rewrite (IH _ _ _ E). exact H.
+  - apply bind_some in H. destruct H as [kt [Hk H]].
+    apply bind_some in H. destruct H as [vt [Hv H]].
+    rewrite (IH _ _ _ Hk), (IH _ _ _ Hv). exact H.
+  - apply bind_some in H. destruct H as [fts [Hf H]].
+    erewrite mapM_imp; [exact H| |exact Hf].
+    intros [[gn tag] ft] y _. simpl. destruct (parse_tag gn tag) as [name maybe].
+    intros Hy. apply bind_some in Hy. destruct Hy as [t' [Ht' Hy]].
+    rewrite (IH _ _ _ Ht'). exact Hy.
+Qed.
+
+Lemma nodupb_map_fst_wf fts :
+  nodupb (map fst fts) = true -> Forall (fun nt : string * ty => wf_ty (snd nt) = true) fts -> wf_ty (TObj fts) = true.
+Proof.
+  intros Hn Hw. simpl. rewrite Hn. simpl. apply forallb_forall. apply Forall_forall. exact Hw.
+Qed.
+
+Lemma type_of_wf : forall f t lv T, type_of f t lv = Some T -> wf_ty T = true.
+Proof.
+  induction f as [|f IH]; intros t lv T H; [discriminate|].
+  rewrite type_of_S in H. destruct (Nat.ltb maxLevel lv); [discriminate|].
+  destruct t; try discriminate; try (inversion H; subst; reflexivity).
+  - exact (IH _ _ _ H).
+  - destruct (type_of f t (S lv)) as [T'|] eqn:E; [|discriminate]. inversion H; subst. simpl. exact (IH _ _ _ E).
+  - destruct (type_of f t (S lv)) as [T'|] eqn:E; [|discriminate]. inversion H; subst. simpl. exact (IH _ _ _ E).
+  - apply bind_some in H. destruct H as [kt [Hk H]].
+    apply bind_some in H. destruct H as [vt [Hv H]].
+    unfold mk_mapty in H. destruct (keyable kt) eqn:Ek; [|discriminate]. inversion H; subst.
+    simpl. rewrite Ek, (IH _ _ _ Hk), (IH _ _ _ Hv). reflexivity.
+  - apply bind_some in H. destruct H as [fts [Hf H]].
+    unfold mk_obj in H. destruct (nodupb (map fst fts)) eqn:En; [|discriminate]. inversion H; subst.
+    apply nodupb_map_fst_wf; [exact En|].
+    apply mapM_Forall2 in Hf. clear -Hf IH.
+    induction Hf as [|[[gn tag] ft] y l ys Hy Hf IHf]; constructor; [|exact IHf].
+    simpl in Hy. destruct (parse_tag gn tag) as [name maybe].
+    apply bind_some in Hy. destruct Hy as [t' [Ht' Hy]]. inversion Hy; subst. simpl.
+    destruct maybe; simpl; exact (IH _ _ _ Ht').
+Qed.
+
+
+(* ---- val_of, one unfolding, with the struct loop named ---- *)
+
+Definition struct_go (cv : gty -> gv -> option val) :=
+  fix go (fs : list (string * string * gty)) (vs : list gv) : option (list (string * val)) :=
+    match fs, vs with
+    | [], [] => Some []
+    | (gn, tag, ft) :: fr, x :: vr =>
+        let '(name, maybe) := parse_tag gn tag in
+        do fv <- (if is_nil x then
+                    do et <- type_of (S maxLevel + S maxLevel) ft 0; Some (VMaybe (TMaybe et) None)
+                  else
+                    do y <- cv ft x;
+                    Some (if maybe then VMaybe (TMaybe (val_type y)) (Some y) else y));
+        do rest <- go fr vr; Some ((name, fv) :: rest)
+    | _, _ => None
+    end.
+
+Definition obj_of (xs : list (string * val)) : list (string * ty) :=
+  map (fun nv => (fst nv, val_type (snd nv))) xs.
+
+Lemma val_of_S ops f t v lv :
+  val_of ops (S f) t v lv =
+    if Nat.ltb maxLevel lv then None
+    else if is_nil v then None
+    else
+      match unwrap f t v with
+      | None => None
+      | Some (t1, v1) =>
+        match t1, v1 with
+        | GTime, HTime s n => Some (VTime s n)
+        | GBool, HBool b => Some (VBool b)
+        | GInt, HInt z => Some (VNum (of_Z ops z))
+        | GUint, HUint n => Some (VNum (of_Z ops (Z.of_N n)))
+        | GFloat, HFloat b => Some (VNum b)
+        | GString, HString s => Some (VStr s)
+        | (GSlice e | GArray e), (HSeq _ | HNil) =>
+            let elems := match v1 with HSeq l => l | _ => [] end in
+            match elems with
+            | [] => do lt <- type_of (S maxLevel + S maxLevel) t1 lv;
+                    match lt with TList _ => Some (VList lt []) | _ => None end
+            | _ =>
+                do xs <- mapM (fun x => val_of ops f e x (S lv)) elems;
+                match xs with
+                | x0 :: _ => if all_eq_type (val_type x0) xs then Some (VList (TList (val_type x0)) xs) else None
+                | [] => None
+                end
+            end
+        | GMap kt vt, (HMap _ | HNil) =>
+            let entries := match v1 with HMap l => l | _ => [] end in
+            match entries with
+            | [] => do mt <- type_of (S maxLevel + S maxLevel) t1 lv;
+                    match mt with TMap _ _ => Some (VMap mt []) | _ => None end
+            | _ =>
+                do kvs <- mapM (fun kv => do k <- val_of ops f kt (fst kv) (S lv); do x <- val_of ops f vt (snd kv) (S lv); Some (k, x)) entries;
+                match kvs with
+                | (k0, x0) :: _ =>
+                    if all_eq_type (val_type k0) (map fst kvs) && all_eq_type (val_type x0) (map snd kvs) then
+                      do mt <- mk_mapty (val_type k0) (val_type x0);
+                      do ents <- fold_left (fun acc kx => do a <- acc;
+                                                          match key_of ops (fst kx) with
+                                                          | (_, OVal kk) => Some (kput kk (snd kx) a)
+                                                          | _ => None end) kvs (Some []);
+                      Some (VMap mt ents)
+                    else None
+                | [] => None
+                end
+            end
+        | GStruct fs, HStruct vs =>
+            match fs with
+            | [] => Some (VObj (TObj []) [])
+            | _ =>
+                do xs <- struct_go (fun ft x => val_of ops f ft x (S lv)) fs vs;
+                do ot <- mk_obj (obj_of xs);
+                Some (VObj ot (map snd xs))
+            end
+        | _, _ => None
+        end
+      end.
+Proof. reflexivity. Qed.
+
+(* ---- shape stability, fuel hidden ---- *)
+
+Definition stable (t : gty) (v : gv) : Prop := exists k, shape_stable k t v false = true.
+
+Lemma shape_stable_S k t v b :
+  shape_stable (S k) t v b =
+    match t, v with
+    | _, HNil => b && match t with GPtr _ | GSlice _ | GMap _ _ => true | _ => false end
+    | GBool, HBool _ | GInt, HInt _ | GUint, HUint _ | GFloat, HFloat _ | GString, HString _ | GTime, HTime _ _ => true
+    | GPtr e, HPtr x => shape_stable k e x false
+    | (GSlice e | GArray e), HSeq vs => forallb (fun x => shape_stable k e x false) vs
+    | GMap kt e, HMap kvs => forallb (fun kx => shape_stable k kt (fst kx) false && shape_stable k e (snd kx) false) kvs
+    | GStruct fs, HStruct vs =>
+        Nat.eqb (len fs) (len vs) &&
+        forallb (fun fx => let '(gn, tag, ft) := fst fx in shape_stable k ft (snd fx) (snd (parse_tag gn tag))) (combine fs vs)
+    | _, _ => false
+    end.
+Proof. reflexivity. Qed.
+
+Lemma shape_stable_nonnil k t v b : is_nil v = false -> shape_stable k t v b = shape_stable k t v false.
+Proof.
+  intros Hn. destruct k as [|k]; [reflexivity|].
+  rewrite !shape_stable_S. destruct v; try discriminate Hn; reflexivity.
+Qed.
+
+Lemma stable_nonnil t v : stable t v -> is_nil v = false.
+Proof.
+  intros [k H]. destruct k as [|k]; [discriminate|]. rewrite shape_stable_S in H.
+  destruct v; try reflexivity. destruct t; discriminate H.
+Qed.
+
+Lemma stable_ptr e x : stable (GPtr e) (HPtr x) -> stable e x.
+Proof. intros [k H]. destruct k as [|k]; [discriminate|]. rewrite shape_stable_S in H. exists k; exact H. Qed.
+
+Lemma stable_slice e l x : stable (GSlice e) (HSeq l) -> In x l -> stable e x.
+Proof.
+  intros [k H] Hin. destruct k as [|k]; [discriminate|]. rewrite shape_stable_S in H.
+  rewrite forallb_forall in H. exists k. exact (H x Hin).
+Qed.
+
+Lemma stable_array e l x : stable (GArray e) (HSeq l) -> In x l -> stable e x.
+Proof.
+  intros [k H] Hin. destruct k as [|k]; [discriminate|]. rewrite shape_stable_S in H.
+  rewrite forallb_forall in H. exists k. exact (H x Hin).
+Qed.
+
+Lemma stable_map kt e l kx : stable (GMap kt e) (HMap l) -> In kx l -> stable kt (fst kx) /\ stable e (snd kx).
+Proof.
+  intros [k H] Hin. destruct k as [|k]; [discriminate|]. rewrite shape_stable_S in H.
+  rewrite forallb_forall in H. specialize (H kx Hin). apply andb_true_iff in H. destruct H as [H1 H2].
+  split; exists k; assumption.
+Qed.
+
+(* field-wise stability of a struct: a nil field is declared optional, a non-nil field is stable *)
+Definition fields_stable (fs : list (string * string * gty)) (vs : list gv) : Prop :=
+  Forall2 (fun (fd : string * string * gty) x =>
+             let '(gn, tag, ft) := fd in
+             if is_nil x then snd (parse_tag gn tag) = true else stable ft x) fs vs.
+
+Lemma stable_struct fs vs : stable (GStruct fs) (HStruct vs) -> fields_stable fs vs.
+Proof.
+  intros [k H]. destruct k as [|k]; [discriminate|]. rewrite shape_stable_S in H.
+  apply andb_true_iff in H. destruct H as [Hl H]. apply Nat.eqb_eq in Hl. unfold len in Hl.
+  unfold fields_stable. revert vs Hl H. induction fs as [|[[gn tag] ft] fs IH]; intros [|x vs] Hl H; try discriminate Hl.
+  - constructor.
+  - simpl in H. apply andb_true_iff in H. destruct H as [Hx H].
+    constructor; [|apply IH; [simpl in Hl; lia|exact H]].
+    destruct (is_nil x) eqn:En.
+    + destruct x; try discriminate En. destruct k as [|k]; [discriminate|]. rewrite shape_stable_S in Hx.
+      destruct ft; apply andb_true_iff in Hx; tauto.
+    + rewrite shape_stable_nonnil in Hx by exact En. exists k; exact Hx.
+Qed.
+
+(* ---- unwrap ---- *)
+
+Definition not_ref (t : gty) : Prop := match t with GPtr _ | GIface => False | _ => True end.
+
+Lemma unwrap_stable : forall f t v t1 v1,
+  unwrap f t v = Some (t1, v1) -> iface_free t = true -> stable t v ->
+  iface_free t1 = true /\ stable t1 v1 /\ sty t1 = sty t /\ not_ref t1.
+Proof.
+  induction f as [|f IH]; intros t v t1 v1 H Hi Hs; [discriminate|].
+  destruct t; try (simpl in H; inversion H; subst; simpl; tauto).
+  - destruct v; try discriminate H. simpl in H.
+    destruct (IH _ _ _ _ H Hi (stable_ptr _ _ Hs)) as [Ha [Hb [Hc Hd]]]. simpl. tauto.
+  - discriminate Hi.
+Qed.
+
+
+(* ---- equality both ways (so that no well-formedness of value types is needed for symmetry) ---- *)
+
+Definition teq (a b : ty) : Prop := ty_eqb a b = true /\ ty_eqb b a = true.
+
+Lemma teq_refl T : wf_ty T = true -> teq T T.
+Proof. intros H. split; apply C17Proofs.eq_refl; exact H. Qed.
+
+Lemma keyable_eqb a b : ty_eqb a b = true -> keyable a = true -> keyable b = true.
+Proof.
+  intros He Hk. destruct a; try discriminate Hk; destruct b; try discriminate He; reflexivity.
+Qed.
+
+Lemma fields_rel_pointwise (R : ty -> ty -> Prop) (l1 l2 : list (string * ty)) :
+  Forall2 (fun a b => fst a = fst b /\ R (snd a) (snd b)) l1 l2 -> NoDup (map fst l1) -> fields_rel R l1 l2.
+Proof.
+  induction 1 as [|[n1 t1] [n2 t2] l1 l2 [Hn Hr] HF IH]; intros Hnd n t Hin; [destruct Hin|].
+  simpl in Hn, Hr. subst n2. simpl in Hnd. inversion Hnd as [|? ? Hnotin Hnd']; subst.
+  destruct Hin as [E|Hin].
+  - inversion E; subst. exists t2. simpl. rewrite String.eqb_refl. split; [reflexivity|exact Hr].
+  - destruct (IH Hnd' n t Hin) as [t' [Ha Ht]]. exists t'. split; [|exact Ht].
+    simpl. destruct (String.eqb_spec n n1) as [E|E]; [|exact Ha].
+    subst. exfalso. apply Hnotin. apply (in_map fst) in Hin. exact Hin.
+Qed.
+
+Lemma Forall2_flip {X Y} (R : X -> Y -> Prop) l1 l2 : Forall2 R l1 l2 -> Forall2 (fun b a => R a b) l2 l1.
+Proof. induction 1; constructor; auto. Qed.
+
+Lemma Forall2_len {X Y} (R : X -> Y -> Prop) l1 l2 : Forall2 R l1 l2 -> List.length l1 = List.length l2.
+Proof. induction 1; simpl; congruence. Qed.
+
+Lemma Forall2_imp {X Y} (R S : X -> Y -> Prop) l1 l2 :
+  (forall a b, R a b -> S a b) -> Forall2 R l1 l2 -> Forall2 S l1 l2.
+Proof. intros H. induction 1; constructor; auto. Qed.
+
+Lemma Forall2_map_fst {X Y} (R : string * X -> string * Y -> Prop) l1 l2 :
+  Forall2 (fun a b => fst a = fst b /\ R a b) l1 l2 -> map fst l1 = map fst l2.
+Proof. induction 1 as [|a b l1 l2 [Hn _] _ IH]; simpl; [reflexivity|]. rewrite Hn, IH. reflexivity. Qed.
+
+Lemma map_fst_obj_of xs : map fst (obj_of xs) = map fst xs.
+Proof. unfold obj_of. rewrite map_map. reflexivity. Qed.
+
+Lemma teq_obj xs fts :
+  Forall2 (fun (a : string * val) (b : string * ty) => fst a = fst b /\ teq (val_type (snd a)) (snd b)) xs fts ->
+  nodupb (map fst xs) = true ->
+  mk_obj fts = Some (TObj fts) /\ teq (TObj (obj_of xs)) (TObj fts).
+Proof.
+  intros HF Hn.
+  assert (map fst xs = map fst fts) as Hk by (eapply Forall2_map_fst; exact HF).
+  split.
+  - unfold mk_obj. rewrite <- Hk, Hn. reflexivity.
+  - assert (NoDup (map fst (obj_of xs))) as Hnd1 by (rewrite map_fst_obj_of; apply nodupb_NoDup; exact Hn).
+    assert (NoDup (map fst fts)) as Hnd2 by (rewrite <- Hk; apply nodupb_NoDup; exact Hn).
+    assert (Forall2 (fun a b : string * ty => fst a = fst b /\ teq (snd a) (snd b)) (obj_of xs) fts) as HF'.
+    { clear -HF. unfold obj_of. induction HF as [|a b l1 l2 [H1 H2] _ IH]; simpl; constructor; auto. }
+    assert (List.length (obj_of xs) = List.length fts) as Hl by (eapply Forall2_len; exact HF').
+    split; apply ty_eqb_obj_spec; split; auto.
+    + apply fields_rel_pointwise; [|exact Hnd1].
+      eapply Forall2_imp; [|exact HF']. intros a b [H1 [H2 _]]. split; assumption.
+    + apply fields_rel_pointwise; [|exact Hnd2].
+      apply Forall2_flip in HF'. eapply Forall2_imp; [|exact HF']. intros a b [H1 [_ H2]]. split; auto.
+Qed.
+
+(* ---- the struct loop ---- *)
+
+Definition sty_field (x : string * string * gty) : option (string * ty) :=
+  let '(gn, tag, ft) := x in
+  let '(name, maybe) := parse_tag gn tag in
+  do t' <- sty ft; Some (name, if maybe then TMaybe t' else t').
+
+Lemma sty_struct fs : sty (GStruct fs) = do fts <- mapM sty_field fs; mk_obj fts.
+Proof. reflexivity. Qed.
+
+Definition conv_ok (cv : gty -> gv -> option val) : Prop :=
+  forall t v x, cv t v = Some x -> iface_free t = true -> stable t v ->
+  exists T, sty t = Some T /\ teq (val_type x) T.
+
+Lemma struct_go_cons cv gn tag ft fr x vr :
+  struct_go cv ((gn, tag, ft) :: fr) (x :: vr) =
+    let '(name, maybe) := parse_tag gn tag in
+    do fv <- (if is_nil x then
+                do et <- type_of (S maxLevel + S maxLevel) ft 0; Some (VMaybe (TMaybe et) None)
+              else
+                do y <- cv ft x;
+                Some (if maybe then VMaybe (TMaybe (val_type y)) (Some y) else y));
+    do rest <- struct_go cv fr vr; Some ((name, fv) :: rest).
+Proof. reflexivity. Qed.
+
+Lemma struct_go_sty cv : conv_ok cv -> forall fs vs xs,
+  struct_go cv fs vs = Some xs ->
+  forallb (fun f : string * string * gty => iface_free (snd f)) fs = true ->
+  fields_stable fs vs ->
+  exists fts, mapM sty_field fs = Some fts /\
+    Forall2 (fun (a : string * val) (b : string * ty) => fst a = fst b /\ teq (val_type (snd a)) (snd b)) xs fts.
+Proof.
+  intros Hcv. induction fs as [|[[gn tag] ft] fr IH]; intros [|x vr] xs H Hi Hs; try discriminate H.
+  - inversion H; subst. exists []. split; [reflexivity|constructor].
+  - rewrite struct_go_cons in H.
+    inversion Hs as [|? ? ? ? Hx Hs']; subst. simpl in Hi. apply andb_true_iff in Hi. destruct Hi as [Hi1 Hi2].
+    rewrite mapM_cons. unfold sty_field at 1.
+    destruct (parse_tag gn tag) as [name maybe] eqn:Ep. simpl in Hx.
+    apply bind_some in H. destruct H as [fv [Hfv H]].
+    apply bind_some in H. destruct H as [rest [Hrest H]]. inversion H; subst.
+    destruct (IH _ _ Hrest Hi2 Hs') as [fts [Hm HF]]. rewrite Hm.
+    destruct (is_nil x).
+    + subst maybe.
+      apply bind_some in Hfv. destruct Hfv as [et [Het Hfv]]. inversion Hfv; subst.
+      rewrite (type_of_sty _ _ _ _ Het). simpl.
+      eexists. split; [reflexivity|]. constructor; [|exact HF]. simpl. split; [reflexivity|].
+      apply (teq_refl (TMaybe et)). simpl. eapply type_of_wf; exact Het.
+    + apply bind_some in Hfv. destruct Hfv as [y [Hy Hfv]]. inversion Hfv; subst.
+      destruct (Hcv _ _ _ Hy Hi1 Hx) as [T [HT [E1 E2]]]. rewrite HT. simpl.
+      eexists. split; [reflexivity|]. constructor; [|exact HF]. simpl. split; [reflexivity|].
+      destruct maybe; split; simpl; assumption.
+Qed.
+
+(* ---- the conversion of a shape-stable value of an interface-free type has the static type ---- *)
+
+Lemma list_case ops f lv F e t1 l x :
+  (forall lv', conv_ok (fun t v => val_of ops f t v lv')) ->
+  sty t1 = option_map TList (sty e) ->
+  match l with
+  | [] => do lt <- type_of F t1 lv; match lt with TList _ => Some (VList lt []) | _ => None end
+  | _ :: _ =>
+      do xs <- mapM (fun y => val_of ops f e y (S lv)) l;
+      match xs with
+      | x0 :: _ => if all_eq_type (val_type x0) xs then Some (VList (TList (val_type x0)) xs) else None
+      | [] => None
+      end
+  end = Some x ->
+  iface_free e = true -> (forall y, In y l -> stable e y) ->
+  exists T, sty t1 = Some T /\ teq (val_type x) T.
+Proof.
+  intros IH Hst H Hi Hs. destruct l as [|y0 l].
+  - apply bind_some in H. destruct H as [lt [Hlt H]].
+    exists lt. split; [eapply type_of_sty; exact Hlt|].
+    destruct lt; try discriminate H. inversion H; subst. simpl.
+    apply teq_refl. eapply type_of_wf; exact Hlt.
+  - apply bind_some in H. destruct H as [xs [Hm H]].
+    rewrite mapM_cons in Hm.
+    apply bind_some in Hm. destruct Hm as [x0 [Hx0 Hm]].
+    apply bind_some in Hm. destruct Hm as [xr [_ Hm]]. inversion Hm; subst.
+    destruct (all_eq_type (val_type x0) (x0 :: xr)); [|discriminate H]. inversion H; subst.
+    destruct (IH _ _ _ _ Hx0 Hi (Hs y0 (or_introl Logic.eq_refl))) as [T [HT [E1 E2]]].
+    exists (TList T). rewrite Hst, HT. split; [reflexivity|]. split; simpl; assumption.
+Qed.
+
+Lemma map_case ops f lv F kt vt t1 (l : list (gv * gv)) x :
+  (forall lv', conv_ok (fun t v => val_of ops f t v lv')) ->
+  sty t1 = (do k <- sty kt; do v <- sty vt; mk_mapty k v) ->
+  match l with
+  | [] => do mt <- type_of F t1 lv; match mt with TMap _ _ => Some (VMap mt []) | _ => None end
+  | _ :: _ =>
+      do kvs <- mapM (fun kv => do k <- val_of ops f kt (fst kv) (S lv); do x <- val_of ops f vt (snd kv) (S lv); Some (k, x)) l;
+      match kvs with
+      | (k0, x0) :: _ =>
+          if all_eq_type (val_type k0) (map fst kvs) && all_eq_type (val_type x0) (map snd kvs) then
+            do mt <- mk_mapty (val_type k0) (val_type x0);
+            do ents <- fold_left (fun acc kx => do a <- acc;
+                                                match key_of ops (fst kx) with
+                                                | (_, OVal kk) => Some (kput kk (snd kx) a)
+                                                | _ => None end) kvs (Some []);
+            Some (VMap mt ents)
+          else None
+      | [] => None
+      end
+  end = Some x ->
+  iface_free kt = true -> iface_free vt = true ->
+  (forall kx, In kx l -> stable kt (fst kx) /\ stable vt (snd kx)) ->
+  exists T, sty t1 = Some T /\ teq (val_type x) T.
+Proof.
+  intros IH Hst H Hik Hiv Hs. destruct l as [|[k0 y0] l].
+  - apply bind_some in H. destruct H as [mt [Hmt H]].
+    exists mt. split; [eapply type_of_sty; exact Hmt|].
+    destruct mt; try discriminate H. inversion H; subst. simpl.
+    apply teq_refl. eapply type_of_wf; exact Hmt.
+  - apply bind_some in H. destruct H as [kvs [Hm H]].
+    rewrite mapM_cons in Hm.
+    apply bind_some in Hm. destruct Hm as [[k0' x0'] [Hkx Hm]].
+    apply bind_some in Hm. destruct Hm as [xr [_ Hm]]. inversion Hm; subst. clear Hm.
+    simpl in Hkx.
+    apply bind_some in Hkx. destruct Hkx as [k1 [Hk1 Hkx]].
+    apply bind_some in Hkx. destruct Hkx as [x1 [Hx1 Hkx]]. inversion Hkx; subst. clear Hkx.
+    match type of H with (if ?c then _ else _) = _ => destruct c end; [|discriminate H].
+    apply bind_some in H. destruct H as [mt [Hmt H]].
+    apply bind_some in H. destruct H as [ents [_ H]]. inversion H; subst. clear H.
+    unfold mk_mapty in Hmt. destruct (keyable (val_type k0')) eqn:Ek; [|discriminate Hmt]. inversion Hmt; subst.
+    destruct (Hs _ (or_introl Logic.eq_refl)) as [Hsk Hsv]. simpl in Hsk, Hsv.
+    destruct (IH _ _ _ _ Hk1 Hik Hsk) as [Tk [HTk [Ek1 Ek2]]].
+    destruct (IH _ _ _ _ Hx1 Hiv Hsv) as [Tv [HTv [Ev1 Ev2]]].
+    exists (TMap Tk Tv). rewrite Hst, HTk, HTv. simpl. unfold mk_mapty. rewrite (keyable_eqb _ _ Ek1 Ek).
+    split; [reflexivity|]. split; simpl; [rewrite Ek1, Ev1|rewrite Ek2, Ev2]; reflexivity.
+Qed.
+
+Lemma val_of_sty ops : forall f lv, conv_ok (fun t v => val_of ops f t v lv).
+Proof.
+  induction f as [|f IH]; intros lv t v x H Hi Hs; [discriminate|].
+  rewrite val_of_S in H.
+  destruct (Nat.ltb maxLevel lv); [discriminate|].
+  destruct (is_nil v); [discriminate|].
+  destruct (unwrap f t v) as [[t1 v1]|] eqn:Eu; [|discriminate].
+  destruct (unwrap_stable _ _ _ _ _ Eu Hi Hs) as [Hi1 [Hs1 [Hst _]]]. rewrite <- Hst. clear Hst Eu Hi Hs t v.
+  assert (is_nil v1 = false) as Hnn by (apply stable_nonnil in Hs1; exact Hs1).
+  remember (S maxLevel + S maxLevel)%nat as F eqn:EF in H; clear EF.
+  destruct t1; destruct v1; try discriminate Hnn;
+    try match type of H with None = Some _ => discriminate H end;
+    try match type of H with Some _ = Some _ =>
+      inversion H; subst; eexists; split; [reflexivity|split; reflexivity] end.
+  - (* slice *)
+    cbv beta iota zeta in H. simpl in Hi1.
+    eapply (list_case ops f lv F t1 (GSlice t1) vs x IH); [reflexivity|exact H|exact Hi1|].
+    intros y Hy. eapply stable_slice; eauto.
+  - (* array *)
+    cbv beta iota zeta in H. simpl in Hi1.
+    eapply (list_case ops f lv F t1 (GArray t1) vs x IH); [reflexivity|exact H|exact Hi1|].
+    intros y Hy. eapply stable_array; eauto.
+  - (* map *)
+    cbv beta iota zeta in H. simpl in Hi1. apply andb_true_iff in Hi1. destruct Hi1 as [Hik Hiv].
+    eapply (map_case ops f lv F t1_1 t1_2 (GMap t1_1 t1_2) kvs x IH); [reflexivity|exact H|exact Hik|exact Hiv|].
+    intros kx Hkx. eapply stable_map; eauto.
+  - (* struct *)
+    apply stable_struct in Hs1. simpl in Hi1.
+    destruct fs as [|fd fr].
+    + inversion H; subst. exists (TObj []). split; [reflexivity|split; reflexivity].
+    + apply bind_some in H. destruct H as [xs [Hgo H]].
+      apply bind_some in H. destruct H as [ot [Hot H]]. inversion H; subst. clear H.
+      unfold mk_obj in Hot. rewrite map_fst_obj_of in Hot.
+      destruct (nodupb (map fst xs)) eqn:En; [|discriminate Hot]. inversion Hot; subst. clear Hot.
+      destruct (struct_go_sty _ (IH (S lv)) _ _ _ Hgo Hi1 Hs1) as [fts [Hm HF]].
+      destruct (teq_obj _ _ HF En) as [Hmk Hteq].
+      exists (TObj fts). rewrite sty_struct, Hm. simpl. split; [exact Hmk|exact Hteq].
+Qed.
+
+(* ---- environments of a struct ---- *)
+
+Lemma val_of_struct ops f fs v lv x :
+  val_of ops f (GStruct fs) v lv = Some x -> exists xs, x = VObj (TObj (obj_of xs)) (map snd xs).
+Proof.
+  intros H. destruct f as [|f]; [discriminate|].
+  rewrite val_of_S in H.
+  destruct (Nat.ltb maxLevel lv); [discriminate|].
+  destruct (is_nil v); [discriminate|].
+  destruct f as [|f]; [discriminate|].
+  change (unwrap (S f) (GStruct fs) v) with (Some (GStruct fs, v)) in H. cbv beta iota in H.
+  destruct v; try match type of H with None = Some _ => discriminate H end.
+  destruct fs as [|fd fr].
+  - inversion H; subst. exists []. reflexivity.
+  - apply bind_some in H. destruct H as [xs [_ H]].
+    apply bind_some in H. destruct H as [ot [Hot H]]. inversion H; subst.
+    unfold mk_obj in Hot. destruct (nodupb (map fst (obj_of xs))); [|discriminate Hot]. inversion Hot; subst.
+    exists xs. reflexivity.
+Qed.
+
+Lemma TypeEnvOf_struct ops fs v :
+  is_nil v = false ->
+  TypeEnvOf ops (GStruct fs) v = match TypeOf ops (GStruct fs) v with Some (TObj fs') => Some fs' | _ => None end.
+Proof.
+  intros Hn. unfold TypeEnvOf. rewrite Hn.
+  change (unwrap conv_fuel (GStruct fs) v) with (Some (GStruct fs, v)). reflexivity.
+Qed.
+
+Lemma ValEnvOf_struct ops fs v :
+  is_nil v = false ->
+  ValEnvOf ops (GStruct fs) v =
+    match ValOf ops (GStruct fs) v with
+    | Some (VObj (TObj fs') vs) => Some (combine (map fst fs') vs)
+    | _ => None
+    end.
+Proof.
+  intros Hn. unfold ValEnvOf. rewrite Hn.
+  change (unwrap conv_fuel (GStruct fs) v) with (Some (GStruct fs, v)). reflexivity.
+Qed.
+
+Lemma combine_obj_of xs : combine (map fst (obj_of xs)) (map snd xs) = xs.
+Proof.
+  rewrite map_fst_obj_of. induction xs as [|[n v] xs IH]; simpl; [reflexivity|]. rewrite IH. reflexivity.
+Qed.
+
+Lemma assoc_obj_of n xs : assoc n (obj_of xs) = option_map val_type (assoc n xs).
+Proof.
+  induction xs as [|[m v] xs IH]; simpl; [reflexivity|].
+  destruct (String.eqb n m); [reflexivity|exact IH].
+Qed.
+
+Lemma ValOf_eq ops t v : ValOf ops t v = val_of ops conv_fuel t v 0.
+Proof. reflexivity. Qed.
+
+Lemma TypeOf_eq ops t v :
+  TypeOf ops t v = match ValOf ops t v with Some x => Some (val_type x) | None => type_of conv_fuel t 0 end.
+Proof. reflexivity. Qed.
+
+Lemma same_go_type : forall ops t v1 v2 te rho,
+  iface_free t = true -> shape_stable conv_fuel t v1 false = true -> shape_stable conv_fuel t v2 false = true ->
+  (match t with GStruct _ => True | _ => False end) ->
+  TypeEnvOf ops t v1 = Some te -> ValEnvOf ops t v2 = Some rho ->
+  env_check te rho = true.
+Proof.
+  intros ops t v1 v2 te rho Hi Hs1 Hs2 Ht Hte Hrho.
+  destruct t; try contradiction. clear Ht.
+  assert (stable (GStruct fs) v1) as St1 by (exists conv_fuel; exact Hs1).
+  assert (stable (GStruct fs) v2) as St2 by (exists conv_fuel; exact Hs2).
+  clear Hs1 Hs2.
+  (* the compile-time side: an object type equal to the static type *)
+  assert (exists T, sty (GStruct fs) = Some T /\ ty_eqb (TObj te) T = true) as [T [HT Hte_T]].
+  { rewrite TypeEnvOf_struct in Hte by (apply stable_nonnil in St1; exact St1).
+    rewrite TypeOf_eq in Hte. destruct (ValOf ops (GStruct fs) v1) as [x1|] eqn:E1.
+    - rewrite ValOf_eq in E1. destruct (val_of_sty ops _ _ _ _ _ E1 Hi St1) as [T [HT [E _]]].
+      exists T. split; [exact HT|].
+      destruct (val_type x1); try discriminate Hte. inversion Hte; subst. exact E.
+    - destruct (type_of conv_fuel (GStruct fs) 0) as [T|] eqn:ET; [|discriminate Hte].
+      destruct T; try discriminate Hte. inversion Hte; subst.
+      exists (TObj te). split; [eapply type_of_sty; exact ET|].
+      apply C17Proofs.eq_refl. eapply type_of_wf; exact ET. }
+  (* the run-time side *)
+  rewrite ValEnvOf_struct in Hrho by (apply stable_nonnil in St2; exact St2).
+  destruct (ValOf ops (GStruct fs) v2) as [x2|] eqn:E2; [|discriminate Hrho].
+  rewrite ValOf_eq in E2.
+  destruct (val_of_struct _ _ _ _ _ _ E2) as [xs Hx2]. subst x2.
+  destruct (val_of_sty ops _ _ _ _ _ E2 Hi St2) as [T' [HT' [_ ET']]].
+  rewrite HT in HT'. inversion HT'; subst T'. simpl in ET'.
+  inversion Hrho; subst rho. rewrite combine_obj_of.
+  pose proof (eqb_trans _ _ _ Hte_T ET') as Heq.
+  apply ty_eqb_obj_spec in Heq. destruct Heq as [_ Hrel].
+  apply env_check_true. intros n t Hin.
+  destruct (Hrel n t Hin) as [t' [Ha Ht']].
+  rewrite assoc_obj_of in Ha. destruct (assoc n xs) as [v|]; [|discriminate Ha].
+  simpl in Ha. inversion Ha; subst. exists v. split; [reflexivity|exact Ht'].
+Qed.
+
+Print Assumptions reject.
+Print Assumptions accept.
+Print Assumptions field_order.
+Print Assumptions same_go_type.
